@@ -136,6 +136,7 @@ func InstrumentGenerated(src string) (string, int, error) {
 type SchedSpec struct {
 	Threads   [][]ProbeOp `json:"threads"`
 	Contexts  []string    `json:"contexts"`
+	Setup     []ProbeOp   `json:"setup,omitempty"`
 	Bound     int         `json:"bound"`
 	MaxExec   int         `json:"max_exec"`
 	BudgetSec int         `json:"budget_sec"`
